@@ -23,7 +23,7 @@ func VerifC17Processor() {
 	K := int(verifParam("K", 6))
 	verifSetenv("LUNAR_RETRY_REQUEST_TIMEOUT_SEC", "1000")
 	attempts := int(verifInt("attempts", 1, 3))
-	cooldowns := []int{0, 1}
+	cooldowns := []int{0, 1, 35} // 35 s: longer than any transaction time-out the engine knows of
 	mults := []float64{0, 0.5, 2}
 	cd := cooldowns[verifChoose("cooldown", len(cooldowns))]
 	mu := mults[verifChoose("mult", len(mults))]
